@@ -56,7 +56,17 @@ class Ctx:
         self.floors[rid] = floor
 
     def inst(self, rule, key, ok, where="", detail="", nontrivial=True):
-        i = Inst(rule, "%s:%s" % (rule, key), bool(ok), where, detail, nontrivial)
+        full = "%s:%s" % (rule, key)
+        for j in self.insts:
+            if j.key == full:
+                # same construct reported twice: keep one instance, failing wins
+                if j.ok and not ok:
+                    j.ok = False
+                    j.status = "violated"
+                    j.where = where
+                    j.detail = detail
+                return j
+        i = Inst(rule, full, bool(ok), where, detail, nontrivial)
         self.insts.append(i)
         return i
 
